@@ -138,8 +138,15 @@ func unmarshalValue(span errors.Span, self interface{}) (*Value, *Interrupt) {
 		return NewValueBool(self), nil
 	case map[string]interface{}:
 		fields := make(map[string]*Value)
-		for key, field := range self {
-			value, err := unmarshalValue(span, field)
+		// in key order: two spellings of one key collapse into one field, which of them survives must not depend
+		// on the iteration order of the decoded map
+		rawKeys := make([]string, 0, len(self))
+		for key := range self {
+			rawKeys = append(rawKeys, key)
+		}
+		sort.Strings(rawKeys)
+		for _, key := range rawKeys {
+			value, err := unmarshalValue(span, self[key])
 			if err != nil {
 				return nil, err
 			}
